@@ -110,7 +110,7 @@ CLAIMED = {
             "the oracle reads the result back with neighbors()/find_links on the real code.",
             "Read-back theorems C11_dict_readback_any / _directed / _undirected (multiplicity of y among neighbors(x) = multiplicity of the listed pairs, symmetric closure for undirected types, a self entry once) are "
             "proved for load_adj_dict and for load_adj_matrix (C11_matrix_readback_any / _directed / _undirected), for vertices without prior links; with prior links read-back is checked by the oracle on the real code.", "DESIGN.md 3/C11"),
-    "C12": ("Lean 4 proof: non-interference of caller-side edits of handed-out containers over all histories (alias-free model); the exchange discipline of the real code (112 exchange point x state rows) regenerated on every run and re-proved leak-free by kernel evaluation; correspondence that really mutates every exchanged container",
+    "C12": ("Lean 4 proof: non-interference of caller-side edits of handed-out containers over all histories (alias-free model); the exchange discipline of the real code (114 exchange point x state rows) regenerated on every run and re-proved leak-free by kernel evaluation; correspondence that really mutates every exchanged container",
             "Regenerated on every run (harness/tables_alias.py): for every point at which a collection is handed out or taken in, caching off / on / on for one class, from a miss and from a hit, the caller's "
             "collection is edited in every way its type allows; C12_exchange_no_leak (no row changes anything observable: the code IS the alias-free model), C12_exchange_table_complete. Theorem C12_noninterference: in the model every accessor/query returns a value, so for every history interleaving public calls with arbitrary edits of any container handed out so far, "
             "the world and all answers equal those of the history with the edits erased (C12_cached_answer_detached for the neighbors memo). The weight is in the correspondence: with keep-mode on, the adapter "
